@@ -311,6 +311,9 @@ func cmdCheck(args []string) int {
 		for _, a := range g.abstracted {
 			abstracted[g.fname+": "+a] = true
 		}
+		for a := range g.inlined {
+			abstracted[g.fname+": inlined body of contract-less helper "+a] = true
+		}
 	}
 	if len(obls) == 0 {
 		fmt.Fprintln(os.Stderr, "engine error: zero obligations generated for", id)
